@@ -3,6 +3,7 @@ import NixModel.NDArray
 import NixModel.Spec.C01
 import NixModel.Dump
 import NixModel.Drive.StoreModel
+import NixModel.Drive.FileState
 namespace Nix.Drive
 
 /-- the axis a trace is currently talking about (index family) -/
@@ -38,5 +39,6 @@ structure DState where
   arr : Option ArrSt := none
   store : StoreSt := {}
   smodel : StoreModel.MState := {}             -- the Lean store model replayed alongside (store family)
+  fileFam : FileFamSt := {}       -- modes / crash / ids families (C09 C11 C12)
 
 end Nix.Drive
